@@ -410,6 +410,117 @@ Section JsonProofs.
       + simpl. exact Hd.
   Qed.
 
+  (* ================= 2b. the converter on ANY value: repeated keys are folded ================= *)
+  Definition jfold_all : list jvalue -> list jvalue :=
+    fix go xs := match xs with [] => [] | x :: r => jfold x :: go r end.
+  Definition jfold_vals : list (bytes * jvalue) -> list (bytes * jvalue) :=
+    fix go kvs := match kvs with [] => [] | (k, x) :: r => (k, jfold x) :: go r end.
+  Lemma jfold_arr xs : jfold (JArr xs) = JArr (jfold_all xs).
+  Proof. reflexivity. Qed.
+  Lemma jfold_obj kvs : jfold (JObj kvs) = JObj (group_members (jfold_vals kvs)).
+  Proof. reflexivity. Qed.
+
+  Lemma j2_obj_fold f kvs : forall acc,
+    j2_obj f (map jmember kvs) acc [] =
+    (fold_left (fun a kv => obj_add a (fst kv) (f (jmember kv))) kvs acc, []).
+  Proof.
+    induction kvs as [|[k x] r IH]; intro acc; [reflexivity|].
+    simpl map. change (jmember (k, x)) with (jnode ElementNode k JSONProp x).
+    cbn [j2_obj]. rewrite jnode_type, jnode_name. simpl fold_left.
+    change (jnode ElementNode k JSONProp x) with (jmember (k, x)). apply IH.
+  Qed.
+
+  Lemma fold_members_ext f kvs :
+    Forall (fun kv => f (jmember kv) = jfold (snd kv)) kvs ->
+    forall acc,
+      fold_left (fun a kv => obj_add a (fst kv) (f (jmember kv))) kvs acc =
+      fold_left (fun a kv => obj_add a (fst kv) (snd kv)) (jfold_vals kvs) acc.
+  Proof.
+    induction 1 as [|[k x] r Hx Hr IH]; intro acc; [reflexivity|].
+    simpl. simpl in Hx. rewrite Hx. apply IH.
+  Qed.
+
+  Lemma j2_arr_fold f xs :
+    Forall (fun x => f (jelem x) = jfold x) xs -> j2_arr f (map jelem xs) = jfold_all xs.
+  Proof.
+    induction 1 as [|x r Hx Hr IH]; [reflexivity|].
+    simpl map. cbn [j2_arr]. unfold jelem at 1. rewrite jnode_type. rewrite Hx, IH. reflexivity.
+  Qed.
+
+  (* the converter on the tree of ANY value (no hypothesis on keys) *)
+  Lemma j2i_jnode_fold v :
+    jnums float_rt v ->
+    forall ty d base, base_ok base -> j2i parsef false true (jnode ty d base v) = jfold v.
+  Proof.
+    induction v as [| b | n | s | xs IH | kvs IH] using jvalue_ind2; intros Hnum ty d base Hb.
+    - destruct Hb as [->|[->| ->]]; reflexivity.
+    - destruct Hb as [->|[->| ->]]; destruct b; reflexivity.
+    - simpl in Hnum. unfold float_rt in Hnum.
+      destruct Hb as [->|[->| ->]]; cbn; rewrite Hnum; reflexivity.
+    - destruct Hb as [->|[->| ->]]; reflexivity.
+    - rewrite jnode_arr, j2i_unfold, jfold_arr. cbv zeta.
+      assert (Hty : Forall (fun c => t_type c = ElementNode) (map jelem xs)).
+      { apply Forall_forall. intros c Hc. apply in_map_iff in Hc as (x & <- & _). apply jnode_type. }
+      unfold is_child_text. cbn [t_kids]. rewrite (ict_elems _ Hty).
+      assert (Harr : is_child_array true (T ty d (FJson (N.lor base JSONArr)) (map jelem xs)) = true)
+        by (destruct Hb as [->|[->| ->]]; reflexivity).
+      rewrite Harr. f_equal. apply j2_arr_fold.
+      rewrite jnums_arr in Hnum.
+      clear Hty Harr. induction IH as [|x r Hx Hr IHr]; [constructor|].
+      destruct Hnum as [Hn1 Hn2]. constructor; [|exact (IHr Hn2)].
+      unfold jelem. apply (Hx Hn1). destruct (is_scalar x); [right; right|left]; reflexivity.
+    - rewrite jnode_obj, j2i_unfold, jfold_obj. cbv zeta.
+      assert (Hty : Forall (fun c => t_type c = ElementNode) (map jmember kvs)).
+      { apply Forall_forall. intros c Hc. apply in_map_iff in Hc as (x & <- & _). apply jnode_type. }
+      unfold is_child_text. cbn [t_kids]. rewrite (ict_elems _ Hty).
+      assert (Harr : is_child_array true (T ty d (FJson (N.lor base JSONObj)) (map jmember kvs)) = false)
+        by (destruct Hb as [->|[->| ->]]; reflexivity).
+      rewrite Harr. rewrite j2_obj_fold.
+      rewrite (fold_members_ext (j2i parsef false true) kvs); [reflexivity|].
+      rewrite jnums_obj in Hnum.
+      clear Hty Harr. induction IH as [|[k x] r Hx Hr IHr]; [constructor|].
+      destruct Hnum as [Hn1 Hn2]. constructor; [|exact (IHr Hn2)].
+      unfold jmember. simpl. apply (Hx Hn1). right; right; reflexivity.
+  Qed.
+
+  Lemma fold_add_fresh kvs : forall acc,
+    keys_distinct (map fst acc ++ map fst kvs) = true ->
+    fold_left (fun a kv => obj_add a (fst kv) (snd kv)) kvs acc =
+    acc ++ map (fun kv => (fst kv, ESingle (snd kv))) kvs.
+  Proof.
+    induction kvs as [|[k x] r IH]; intros acc Hd.
+    - simpl. rewrite app_nil_r. reflexivity.
+    - simpl map in Hd. apply keys_distinct_app_cons in Hd as [Hfresh Hd].
+      simpl fold_left. rewrite (obj_add_fresh acc k x Hfresh). rewrite IH.
+      + rewrite <- app_assoc. reflexivity.
+      + rewrite map_app. exact Hd.
+  Qed.
+
+  (* with pairwise distinct keys nothing is folded *)
+  Lemma jfold_wf v : jwf v = true -> jfold v = v.
+  Proof.
+    induction v as [| b | n | s | xs IH | kvs IH] using jvalue_ind2; intro Hwf; try reflexivity.
+    - rewrite jfold_arr. f_equal. rewrite jwf_arr in Hwf.
+      induction IH as [|x r Hx Hr IHr]; [reflexivity|].
+      simpl in Hwf. apply andb_prop in Hwf as [Hw1 Hw2]. simpl. rewrite (Hx Hw1), (IHr Hw2). reflexivity.
+    - rewrite jfold_obj. rewrite jwf_obj in Hwf. apply andb_prop in Hwf as [Hd Hwf].
+      assert (Hv : jfold_vals kvs = kvs).
+      { clear Hd. induction IH as [|[k x] r Hx Hr IHr]; [reflexivity|].
+        simpl in Hwf. apply andb_prop in Hwf as [Hw1 Hw2]. simpl. simpl in Hx.
+        rewrite (Hx Hw1), (IHr Hw2). reflexivity. }
+      rewrite Hv. unfold group_members. rewrite fold_add_fresh by exact Hd.
+      simpl app. f_equal. rewrite map_map. clear. induction kvs as [|[k x] r IHr]; [reflexivity|].
+      simpl. f_equal. exact IHr.
+  Qed.
+
+  Theorem json_convert_fold v :
+    jnums float_rt v ->
+    option_map (j2iface parsef true) (jbuild fmtf (jtokens v)) = Some (jfold v).
+  Proof.
+    intro Hnum. rewrite jbuild_jtree. simpl. f_equal.
+    unfold j2iface, Json.jtree. apply j2i_jnode_fold; [exact Hnum|right; left; reflexivity].
+  Qed.
+
   (* ================= 3. round trip ================= *)
   Theorem json_roundtrip v :
     jwf v = true -> jnums float_rt v ->
@@ -417,6 +528,15 @@ Section JsonProofs.
   Proof.
     intros Hwf Hnum. rewrite jbuild_jtree. simpl. f_equal.
     unfold j2iface, Json.jtree. apply j2i_jnode; [exact Hwf|exact Hnum|right; left; reflexivity].
+  Qed.
+
+  (* null, empty array, empty object, empty string, booleans: no hypothesis needed *)
+  Lemma copy_empty_values v :
+    In v [JNull; JArr []; JObj []; JStr []; JBool true; JBool false] ->
+    option_map (copy_func parsef) (jbuild fmtf (jtokens v)) = Some v.
+  Proof.
+    intro H. simpl in H.
+    destruct H as [<-|[<-|[<-|[<-|[<-|[<-|[]]]]]]]; reflexivity.
   Qed.
 
   Corollary copy_roundtrip v :
